@@ -231,6 +231,33 @@ def writer_file(root_props, group_props, chan_props, segments):
     return buf.getvalue()
 
 
+def raw_order_file(root_props, group_props, chan_props, segments, order):
+    """The same content as writer_file, encoded by hand with the objects in an order TdmsWriter never produces
+    (it always writes root, group, channel).  order:
+      "chan_first"  one object list: channel, group, root;
+      "late_group"  the channel alone in the first segment(s); group and root objects (with their properties)
+                    first appear in a final metadata-only segment.
+    Only numeric NumPy arrays (None for other data: the caller falls back to writer_file)."""
+    import numpy as np
+    if not all(isinstance(d, np.ndarray) and d.dtype.name in TDS_TYPE and d.dtype.kind in "iuf" for d in segments):
+        return None
+    out = b""
+    for si, data in enumerate(segments):
+        idx = struct.pack("<IIIQ", 20, TDS_TYPE[data.dtype.name], 1, len(data))
+        first = si == 0
+        ch = _raw_object("/'g'/'c'", idx, chan_props if first else {})
+        if order == "chan_first":
+            objs = [ch] + ([_raw_object("/'g'", NO_DATA, group_props), _raw_object("/", NO_DATA, root_props)]
+                           if first else [])
+        else:
+            objs = [ch]
+        raw = data.astype(data.dtype.newbyteorder("<")).tobytes()
+        out += _segment(objs, raw, TOC_META | TOC_NEWOBJ | TOC_RAW)
+    if order == "late_group":
+        out += _segment([_raw_object("/'g'", NO_DATA, group_props), _raw_object("/", NO_DATA, root_props)], b"", TOC_META)
+    return out
+
+
 def _s(x):
     b = x.encode("utf-8")
     return struct.pack("<I", len(b)) + b
